@@ -27,3 +27,20 @@ Definition first_outside (b : bounds R) (vs : list R) (i : nat) : Prop :=
 (* components of a value *)
 Definition comps (x : value R) : list R := match x with VScalar v => [v] | VTensor vs => vs end.
 Definition value_outside (b : bounds R) (x : value R) : Prop := exists v, In v (comps x) /\ outside b v.
+
+(* values concerned by a check restricted to one component (`@Bounds s(k) in ...`); None: every component *)
+Definition selected (k : option nat) (x : value R) : list R :=
+  match k with
+  | None => comps x
+  | Some k => match x with
+              | VScalar v => [v]
+              | VTensor vs => match nth_error vs k with Some v => [v] | None => [] end
+              end
+  end.
+Definition selection_outside (b : bounds R) (k : option nat) (x : value R) : Prop :=
+  exists v, In v (selected k x) /\ outside b v.
+
+(* component j, and only it, is outside the bounds *)
+Definition only_outside (b : bounds R) (vs : list R) (j : nat) : Prop :=
+  (j < length vs)%nat /\ outside b (nth j vs 0) /\
+  forall i, (i < length vs)%nat -> i <> j -> ~ outside b (nth i vs 0).
